@@ -609,7 +609,12 @@ class Engine(
                     extra_columns = list(extra_columns)
                     self.handle_empty_columns(extra_columns)
                 columns_available = payload.columns_available
-                columns_projected = {tag: columns_available[tag] for tag in select.columns}
+                # Use a well-defined column order (set iteration order can
+                # differ between relations with equal columns), since the
+                # operands of a UNION [ALL] are matched up by position.
+                columns_projected = {
+                    tag: columns_available[tag] for tag in sorted(select.columns, key=self.get_identifier)
+                }
                 executable = self.select_items(columns_projected.items(), payload.from_clause, *extra_columns)
                 if len(payload.where) == 1:
                     executable = executable.where(payload.where[0])
